@@ -57,7 +57,7 @@ def run_schedule(text, names, sig, sched, pastify=False, kind='ct', sd_extra=Non
 
 class C05(Prop):
     id = 'C05'
-    rule_added = 'In every run 2 (thorough 48) signals of 501-760 samples fed in one update and cut at/around sample 500. Enumerated in every run: every binary operation (+ - * / pow log, and or implies iff xor, since, since[a,b]) with its operands on two variables that have their own sampling instants, first stamps and batch boundaries (per-variable and interleaved schedules). 35-50% of the cases add interleaved-source schedules (an update carries batches of some variables only, the others omitted or empty; idle polls). 12% under an interface-aware semantics (half: an overridden equality predicate on values mirrored around its constant). 10% of the aligned cases feed the inputs as fields of one object-typed variable.'
+    rule_added = '30% of the pastified cases as modular specifications. In every run 2 (thorough 48) signals of 501-760 samples fed in one update and cut at/around sample 500. Enumerated in every run: every binary operation (+ - * / pow log, and or implies iff xor, since, since[a,b]) with its operands on two variables that have their own sampling instants, first stamps and batch boundaries (per-variable and interleaved schedules). 35-50% of the cases add interleaved-source schedules (an update carries batches of some variables only, the others omitted or empty; idle polls). 12% under an interface-aware semantics (half: an overridden equality predicate on values mirrored around its constant). 10% of the aligned cases feed the inputs as fields of one object-typed variable.'
     rule = ('random past dense-time formulas (and, pastified, bounded-future ones) x signals of 2..8 samples per '
             'variable x schedules {all-at-once, one sample at a time, 3 random aligned chunkings, 1 random '
             'per-variable chunking} (thorough: all 2^(n-1) aligned chunkings for n<=6): the concatenated update() '
@@ -114,6 +114,14 @@ class C05(Prop):
             indep = dict((k, sorted(rng.sample(range(1, n), rng.randint(1, n - 1)))) for k in names)
         case = {'formula': f, 'signals': sig_text(sig), 'schedules': scheds, 'indep': indep, 'pastify': pastify,
                 'structs': rng.random() < 0.1}
+        if pastify and lang.depth(f) >= 2 and rng.random() < 0.3:
+            # the same formula written with named sub-specifications (a name may be referenced below further
+            # look-ahead than its own assertion has): add_sub_spec or one multi-assertion text, then pastify()
+            top, defs = lang.decompose(rng, f, rng.randint(1, 2))
+            if defs:
+                case['modular'] = {'top': lang.to_jsonable(top), 'defs': [[nm, lang.to_jsonable(g)] for nm, g in defs],
+                                   'consts': [], 'style': rng.choice(['one-text', 'subspecs'])}
+                case['structs'] = False
         if rng.random() < 0.35:
             case['interleaved'] = [self.gen_interleaved(rng, sig, names) for _ in range(3)]
         return case
@@ -232,6 +240,10 @@ class C05(Prop):
                 if label == 'aligned' and case.get('structs') and not ia:
                     sdx = {'structify': True}           # inputs as fields of one object-typed variable
                     v.info['class:struct-inputs'] = 1
+                if case.get('modular'):
+                    from rtverif.props.c09 import modular_sd
+                    sdx = dict(sdx or {}, **dict((k2, v2) for k2, v2 in modular_sd(case['modular'], names).items()))
+                    v.info['class:modular-pastified'] = 1
                 outs = run_schedule(text, names, sig, sched, pastify, sd_extra=sdx)
             except Exception as e:
                 if any(x != x for x in exp.vs):
@@ -340,7 +352,7 @@ class C05(Prop):
                 'long': True}
 
     def shrinkable(self, case):
-        return not case.get('long')
+        return not case.get('long') and not case.get('modular')
 
     def run(self, ctx):
         self.long_cases(ctx)
